@@ -203,7 +203,9 @@ def std_ok(impl, parts, base):
     if math.isnan(S) or math.isinf(S):
         return False
     lnb = 1.0 if base is None else math.log(base)
-    return close((S * lnb) ** 2, var / (pcv * pcv))
+    # S = sqrt(var) / (pc ln base): S ln base = sqrt(var) / pc is positive (for a base below 1 the value itself is negative),
+    # and its square is the exact rational var / pc^2
+    return S * lnb > 0 and close((S * lnb) ** 2, var / (pcv * pcv))
 
 
 # ---------------------------------------------------------------- one case = one table and one call of every function
